@@ -167,3 +167,20 @@ impl VoronoiCell {
 
 #[cfg(test)]
 mod tests {}
+
+#[cfg(feature = "verif-hooks")]
+impl VoronoiCell {
+    pub fn vh_init(loc: DVec3, centroid: DVec3, volume: f64, safety_radius: f64, idx: usize) -> Self {
+        Self::init(loc, centroid, volume, safety_radius, idx)
+    }
+    pub fn vh_from_convex_cell<M: ConvexCellMarker + 'static>(
+        convex_cell: &ConvexCell<M>,
+        faces: &mut Vec<VoronoiFace>,
+        mask: Option<&[bool]>,
+    ) -> Self {
+        Self::from_convex_cell(convex_cell, faces, mask)
+    }
+    pub fn vh_idx(&self) -> usize {
+        self.idx
+    }
+}
